@@ -18,6 +18,7 @@ from . import common as C
 
 ASSUMES = ["std's Iterator::eq compares both sequences to exhaustion", "derive(Clone) clones every field", "pt/models.py std model"]
 LEVEL_TEXT = __doc__
+ALL_SUBSETS = True   # thorough tier: all 16 feature subsets (rules read configuration-dependent code)
 OPTS = {"loop_bound": 2}
 
 
